@@ -62,6 +62,7 @@ type dhcpWorld struct {
 	vLeased bool   // the victim got an ACK
 	bAddr   net.IP
 	decl    bool // a DECLINE of the leased address was delivered while the victim held the lease
+	wait    func() // lets goroutines settle (synctest.Wait in a bubble; nil under the controlled scheduler)
 	viols   []viol
 }
 
@@ -69,7 +70,11 @@ func (w *dhcpWorld) add(kind, site, f string, a ...any) {
 	w.viols = append(w.viols, viol{kind, site, fmt.Sprintf(f, a...)})
 }
 
-func (w *dhcpWorld) settle() { synctest.Wait() }
+func (w *dhcpWorld) settle() {
+	if w.wait != nil {
+		w.wait()
+	}
+}
 
 func (w *dhcpWorld) send(c dhcpClient, m dhcpdrv.Msg, relay bool) []dhcpdrv.Reply {
 	m.CHAddr = c.mac
@@ -103,8 +108,10 @@ func (w *dhcpWorld) step(c dhcpClient, s byte, addr net.IP) (net.IP, dhcpv4.Mess
 	return nil, dhcpv4.MessageTypeNone
 }
 
-func runDHCP(e *kenv, k kase, relayed bool) (res result) {
-	w := &dhcpWorld{e: e, k: k}
+// newDHCPWorld builds server + collaborators and establishes the bystander.
+// now/sleep: the clock of the execution (bubble or controlled scheduler).
+func newDHCPWorld(e *kenv, cfg string, relayed bool, wait func(), now func() time.Time, sleep func(time.Duration)) *dhcpWorld {
+	w := &dhcpWorld{e: e, wait: wait}
 	w.v = dhcpClient{name: "victim", mac: net.HardwareAddr{2, 0, 0, 0, 0, 0x01}}
 	w.b = dhcpClient{name: "bystander", mac: net.HardwareAddr{2, 0, 0, 0, 0, 0x0b}}
 	if relayed {
@@ -116,13 +123,11 @@ func runDHCP(e *kenv, k kase, relayed bool) (res result) {
 	w.natM = e.natManager(1)
 	qm, pol := e.qosManager()
 	w.qosM = qm
-	if k.Cfg != "no-radius" {
+	if cfg != "no-radius" {
 		w.rs = newRadiusScript()
-		defer w.rs.close()
 	}
 	w.d = dhcpdrv.NewV4(dhcpdrv.V4Config{Network: dhcpNetwork, Gateway: dhcpGateway, Lease: dhcpLease, Loader: loader,
-		RADIUSAuth: k.Cfg == "radius-auth",
-		Sleep:      func(x time.Duration) { time.Sleep(x); synctest.Wait() },
+		RADIUSAuth: cfg == "radius-auth", Sleep: sleep, Now: now,
 		Setup: func(s *dhcp.Server, _ *dhcp.PoolManager, _ *dhcp.Pool) {
 			s.SetNATManager(w.natM)
 			s.SetQoSManager(w.qosM)
@@ -134,7 +139,6 @@ func runDHCP(e *kenv, k kase, relayed bool) (res result) {
 	if e.has() {
 		loader.SetServerConfig(srvMAC, w.d.ServerIP(), 2) // what Server.Start writes
 	}
-
 	// bystander: fully established before the victim arrives
 	off, _ := w.step(w.b, 'D', nil)
 	w.bAddr, _ = w.step(w.b, 'R', off)
@@ -142,6 +146,19 @@ func runDHCP(e *kenv, k kase, relayed bool) (res result) {
 		panic("harness: bystander could not be established")
 	}
 	w.base = e.dump()
+	return w
+}
+
+func (w *dhcpWorld) close() {
+	if w.rs != nil {
+		w.rs.close()
+	}
+}
+
+func runDHCP(e *kenv, k kase, relayed bool) (res result) {
+	w := newDHCPWorld(e, k.Cfg, relayed, synctest.Wait, nil, func(x time.Duration) { time.Sleep(x); synctest.Wait() })
+	w.k = k
+	defer w.close()
 
 	// victim: establishment prefix
 	for i := 0; i < len(k.Prefix); i++ {
